@@ -39,7 +39,7 @@ def replay(path):
     rp = vlib.load_replay(path)
     p = subprocess.run([_build(), "--replay-case", rp["case"]], stdout=subprocess.PIPE, text=True)
     print(p.stdout)
-    if "REPLAY-VIOLATION" in p.stdout:
+    if "REPLAY-VIOLATION" in p.stdout or p.returncode < 0:      # a replay that dies on a signal reproduces a crash
         print("VIOLATION property=C10 replay=%s" % path)
         return 1
     return 0
